@@ -296,7 +296,7 @@ def collect(scenarios, encoders=None, with_lines=True):
 
 
 def n_scenarios(tier):
-    return 55 if tier == "quick" else 160
+    return 56 if tier == "quick" else 160
 
 
 def get_traces(seed, tier, verbose=True):
